@@ -2,6 +2,7 @@ package datadog
 
 import (
 	"errors"
+	"fmt"
 	"io"
 	"strings"
 	"time"
@@ -11,6 +12,7 @@ import (
 	"github.com/relex/slog-agent/base"
 	"github.com/relex/slog-agent/base/bconfig"
 	"github.com/relex/slog-agent/output/shared"
+	"golang.org/x/exp/slices"
 )
 
 const (
@@ -71,6 +73,12 @@ func (cfg *Config) NewForwarder(parentLogger logger.Logger, args base.ChunkConsu
 
 //nolint:revive
 func (cfg *Config) VerifyConfig(schema base.LogSchema) error {
+	for i, name := range cfg.Serialization.HiddenFields {
+		if slices.Index(schema.GetFieldNames(), name) == -1 {
+			return fmt.Errorf(".serialization.hiddenFields[%d]: field '%s' is not defined in schema", i, name)
+		}
+	}
+
 	if len(cfg.Upstream.Address) == 0 {
 		return errors.New("expected a valid datadog api address")
 	}
